@@ -261,6 +261,8 @@ static uint8_t  prov_addr_override_set[SIM_MAXPKT];
 static vh_rng_t sim_rng;   /* scheduler / network randomness */
 static vh_rng_t seg_rng;   /* transport chopping only (so that A/B runs draw the same sim_rng sequence) */
 static int      sim_no_subms_jitter; /* fixed server delays (A/B differential) */
+static int      sim_answer_foreign_class_every; /* addr profile: every n-th address record is class CH */
+static int      sim_answer_dup_every;           /* addr profile: every n-th address record is sent twice */
 static int      sim_fifo_events; /* fire simultaneous events in insertion order */
 static int      sim_zerolen_with_udp_reply; /* servers add an empty datagram next to every UDP reply */
 static int      sim_destroyed; /* channel destroyed */
